@@ -51,10 +51,16 @@ Definition extractDomain (h : name) : name :=
 
 (* ---- records ---- *)
 Inductive status := StActive | StInactive | StExpired.
-Record mrec := { r_name : name; r_client : client; r_target : N; r_status : status; r_exp : N }.
+Record mrec := { r_name : name; r_client : client; r_target : N; r_status : status; r_exp : Z }.      (* r_exp: int64 Unix instant, 0 = never; may be NEGATIVE *)
 
-(* HTTPDomainMapping.IsExpired / IsActive; now and r_exp in seconds, r_exp = 0: never *)
-Definition is_expired (r : mrec) (now : N) : bool := negb (N.eqb (r_exp r) 0) && N.ltb (r_exp r) now.
+(* HTTPDomainMapping.IsExpired / IsActive; now and r_exp in seconds; ONLY r_exp = 0 means "never": any other instant before
+   now — a negative one included — is expired *)
+Definition is_expired (r : mrec) (now : N) : bool := negb (Z.eqb (r_exp r) 0) && Z.ltb (r_exp r) (Z.of_N now).
+
+(* the expiry the create adapter stores: time.Now().Unix() + int64(ttl) in two's-complement int64 (wraps) *)
+Definition two63 : Z := 9223372036854775808%Z.
+Definition wrap64 (z : Z) : Z := ((z + two63) mod (2 * two63) - two63)%Z.
+Definition adapter_expiry (now : N) (ttl : Z) : Z := wrap64 (Z.of_N now + ttl).
 Definition is_active (r : mrec) (now : N) : bool :=
   match r_status r with StActive => negb (is_expired r now) | _ => false end.
 
@@ -115,7 +121,7 @@ Inductive idref := Mine (k : nat) | Abs (i : id).
 Inductive op :=
 | OCreate (sub base : name) (tgt : N)
 | ODelete (r : idref)
-| OUpdate (k : nat) (st : status) (exp : N) (tgt : N)
+| OUpdate (k : nat) (st : status) (exp : Z) (tgt : N)
 | OLookup (host : name) (now : N)
 | OCleanup (now : N)                      (* CleanupExpiredMappings: an internal deleter acting with each expired mapping's own client id *)
 | OResetCounter.                          (* environment: the counter key disappears (24h TTL of memory.Storage.IncrBy, restart of a cache-only counter) *)
@@ -136,7 +142,7 @@ Inductive pcT :=
 | PCDIdx (i : id) (n : name)                           (* pinned DeleteMapping: Delete index (unconditional) *)
 | PCDRec (i : id)
 | PCDList (i : id)
-| PCUSet (i : id) (n : name) (st : status) (exp : N) (tgt : N)
+| PCUSet (i : id) (n : name) (st : status) (exp : Z) (tgt : N)
 | PCLRec (h : name) (n : name) (i : id) (now : N)
 | PCClScan (now : N) (todo : list id) (acc : list (id * client))      (* ListAllMappings: GetMapping of the next listed id *)
 | PCClDGet (dels : list (id * client)) (cnt : N)                      (* DeleteMapping(id, snapshot's client): Get record *)
